@@ -13,7 +13,7 @@ def range_consts(b):
     for i in range(b.n):
         for s in b.stmts(i):
             if s["k"] == "=" and s["rv"]["k"] == "agg" and str(s["rv"].get("adt", "")).startswith("core::ops::range::Range"):
-                out.append((s["rv"]["adt"].rsplit("::", 1)[1], s["rv"]["fields"], s["rv"]["ops"]))
+                out.append((s["rv"]["adt"].rsplit("::", 1)[-1], s["rv"]["fields"], s["rv"]["ops"]))
     return out
 
 
